@@ -5,7 +5,7 @@ PROPERTY_UNITS = {
     'C03': ['u_list', 'u_tok'],
     'C06': ['u_jobs', 'u_wait'],
     'C05': ['u_list', 'u_jobs', 'u_tok', 'u_plan', 'u_exp1', 'u_calc', 'u_exp2', 'u_wait', 'u_fd', 'u_env', 'u_args', 'u_proc', 'u_exp3'],
-    'C01': ['u_plan', 'u_exp1', 'u_exp2', 'u_exp3', 'u_tok'],
+    'C01': ['u_plan', 'u_exp1', 'u_exp2', 'u_exp3', 'u_tok', 'u_fd'],
     'C13': ['u_plan', 'u_exp1', 'u_exp2', 'u_exp3'],
     'C12': ['u_exp1', 'u_exp2'],
     'C10': ['u_exp2'],
